@@ -17,7 +17,7 @@ reusing a name; a dynamic id that is acknowledged lies in `[DYN_MOD_ID_START, MA
 module; a dynamic-id request is refused only when every dynamic id is held by a live module) and `checkInfos` (every
 CLIENT_INFO frame — after CONNECT, CLIENT_SET_NAME, MODULE_READY, and the ones `send_active_clients` writes in the
 periodic section — reports id, logger flag, uniqueness, name and pid as the connect request / later frames set them).
-The proof carries the simulation relation `Sim` (with the model invariants the decision rests on: distinct uids, the
+The proof carries the simulation relation `SimM` (with the model invariants the decision rests on: distinct uids, the
 manager's own entry, "a module that is not connected holds no id", the dynamic-id cursor in range) through every round
 and compares `connect_module`'s clash loop and `assign_module_id` with the Spec's `mustRefuse` / `mayRefuse` /
 `dynFull` over the Spec's own abstract table.
@@ -273,7 +273,7 @@ verdict `Spec.runSpec` computes from the history and the model's own events has 
 theorem spec_connect_clause_passes_on_model (cfg : Cfg) (ok : CfgOK cfg) (hfuel : cfg.fuel = 0) (hperm : OrdPerm cfg)
     (hmt : cfg.mtClosed ≠ cfg.allTypes) (rs : List Round) (hwf : RoundsWF rs) :
     (Spec.runSpec cfg rs (Pyrtma.Drv.Manager.modelRun cfg rs).1 none).errs.filter (·.1 == "C06") = [] :=
-  spec_passes_on_model ok hfuel hperm hmt rs hwf "C06" (by simp [proven]) (fun h => absurd h (by decide))
+  spec_passes_on_model ok hfuel hperm hmt rs hwf "C06" (by simp [provenCore]) (fun h => absurd h (by decide))
 
 /-! ### Non-vacuity -/
 /-- two clients ask for id 10: the second is refused and closed, the first keeps it -/
